@@ -9,53 +9,61 @@ from rules import protocol
 MAXU = (1 << 32) - 1
 
 
-from rules.common import Oracle, ITER, loop_of, iter_env
+from rules.common import Oracle, ITER, loop_of, iter_env, LoopModel, iter_calls
 
 
 # ------------------------------------------------------------------------------- C05.a
 def c05a(ctx, tu):
+    INT = ("unsigned int", "unsigned long", "int", "size_t", "const unsigned int")
     for fn in tu.need(A["seq_cost"]):
         try:
             l = loop_of(fn, "trompeloeil::sequence_matcher::is_satisfied")
             if l is None:
                 raise Unknown("loop over the pending list not found")
-            body = fn.blocks[l["head"]]["succ"][0]
+            lm = LoopModel(fn, l)
+            ints = [e["var"] for b, e in fn.events() if e["e"] == "decl" and e.get("type") in INT and
+                    (lm.index is None or e["var"] != lm.index[0])]
             bad = None
             rows = []
-            # the counter is the local that is returned inside the loop; find it by running once
             for is_m in (True, False):
                 for sat in (True, False):
                     for k in (0, 1, 2):
-                        o = Oracle(calls=dict(ITER, **{
-                            "trompeloeil::sequence_matcher::is_satisfied": sat}),
-                            params={0: ("ptr", ("elem", "cur")) if is_m else ("ptr", ("elem", "other"))})
-                        it = Interp(fn, o)
-                        # every integral local visible at the loop head holds the running position k
-                        for b, e in fn.events():
-                            if e["e"] == "decl" and e.get("type") in ("unsigned int", "unsigned long", "int", "size_t"):
-                                it.env[e["var"]] = k
-                        it.env.update(iter_env(fn))
-                        res = it.run(start=body, stop_blocks={l["head"]})
+                        o = Oracle(calls=iter_calls("elem", {"trompeloeil::sequence_matcher::is_satisfied": sat}),
+                                   params={0: ("ptr", ("elem", "cur")) if is_m else ("ptr", ("elem", "other"))})
+                        # every integral local visible at the loop entry holds the running position k
+                        res, it = lm.step(o, {v: k for v in ints}, at="elem")
                         if is_m:
                             want = ("return", k)
                         elif not sat:
                             want = ("return", MAXU)
                         else:
-                            want = ("stop", l["head"])
+                            want = ("stop", lm.entry)
                         got = res
                         ok = got == want
                         if ok and want[0] == "stop":
                             # position advanced by exactly one
-                            vals = [v for kk, v in it.env.items() if isinstance(v, int) and not isinstance(v, bool)]
+                            vals = [it.env.get(v) for v in ints]
                             ok = (k + 1) in vals and k not in vals
                         rows.append({"elem_is_m": is_m, "elem_satisfied": sat, "k": k, "decision": list(got)})
                         if not ok and bad is None:
                             bad = "row (element is the asked handle=%s, element satisfied=%s, position=%d): expected %s, " \
                                   "code does %s" % (is_m, sat, k, describe(want, k), describe(got, k))
-            # initial value and fall-through result
-            init_ok, why = init_and_exit(fn, l)
-            if bad is None and not init_ok:
-                bad = why
+            # a handle that is not in the list: 'not callable' once the end is reached, whatever was counted
+            for k in (0, 1, 2):
+                o = Oracle(calls=iter_calls("end", {"trompeloeil::sequence_matcher::is_satisfied": True}),
+                           params={0: ("ptr", ("elem", "other"))})
+                res, it = lm.step(o, {v: k for v in ints}, at="end")
+                if res != ("return", MAXU) and bad is None:
+                    bad = "a handle that is not in the list must be 'not callable' (all-ones) after the loop; code does %s" \
+                          % describe(res, k)
+            # the position counter starts at 0: interpret the code before the loop
+            o = Oracle(calls=iter_calls("elem", {"trompeloeil::sequence_matcher::is_satisfied": True}),
+                       params={0: ("ptr", ("elem", "other"))}, any_member=True)
+            it = Interp(fn, o)
+            r0 = it.run(stop_blocks={lm.entry})
+            if bad is None and (r0 != ("stop", lm.entry) or not ints or any(it.env.get(v) not in (0, None) for v in ints)
+                                or all(it.env.get(v) is None for v in ints)):
+                bad = "position counter is not initialised to 0"
             ctx.ob("C05.a", A["seq_cost"], bad is None, pattern=fn.pat, unit=tu.name,
                    detail="" if bad is None else "sequence cost step table: " + bad,
                    witness=None if bad is None else {"rows": rows})
@@ -96,31 +104,30 @@ def c05b(ctx, tu):
                 l = loop_of(fn, "trompeloeil::sequence_matcher::cost")
                 if l is None:
                     raise Unknown("loop over the handles not found")
-                body = fn.blocks[l["head"]]["succ"][0]
+                lm = LoopModel(fn, l)
+                cands = [e["var"] for b, e in fn.events() if e["e"] == "decl" and e.get("init") == ["int", 0] and
+                         (lm.index is None or e["var"] != lm.index[0])]
+                if len(cands) != 1:
+                    raise Unknown("running maximum (one local initialised to 0) not identified")
+                hv = cands[0]
                 bad = None
                 for c in (0, 1, 2, MAXU):
                     for h in (0, 1, 2, MAXU):
-                        o = Oracle(calls=dict(ITER, **{"trompeloeil::sequence_matcher::cost": c}))
-                        it = Interp(fn, o)
-                        hv = None
-                        for b, e in fn.events():
-                            if e["e"] == "decl" and e.get("init") == ["int", 0]:
-                                hv = e["var"]
-                        if hv is None:
-                            raise Unknown("running maximum not initialised to 0")
-                        it.env[hv] = h
-                        it.env.update(iter_env(fn))
-                        res = it.run(start=body, stop_blocks={l["head"]})
-                        if res[0] != "stop" or it.env.get(hv) != max(h, c):
+                        o = Oracle(calls=iter_calls("elem", {"trompeloeil::sequence_matcher::cost": c}), any_member=True)
+                        res, it = lm.step(o, {hv: h}, at="elem")
+                        if res != ("stop", lm.entry) or it.env.get(hv) != max(h, c):
                             bad = "step (cost=%s, highest so far=%s): expected highest=%s, code gives %s (%s)" % (
                                 c, h, max(h, c), it.env.get(hv), res[0])
                             break
                     if bad:
                         break
                 if bad is None:
-                    rets = cfg.events_in_blocks(fn, cfg.reach(fn, l["after"]), lambda e: e["e"] == "return")
-                    if not rets or any(e.get("x", [None])[0] != "var" for _, _, e in rets):
-                        bad = "order() does not return the running maximum"
+                    for h in (0, 1, 2, MAXU):
+                        o = Oracle(calls=iter_calls("end", {"trompeloeil::sequence_matcher::cost": 1}), any_member=True)
+                        res, it = lm.step(o, {hv: h}, at="end")
+                        if res != ("return", h):
+                            bad = "order() does not return the running maximum (after the last handle: %s, maximum %s)" % (res, h)
+                            break
                 ctx.ob("C05.b", "trompeloeil::sequence_matchers::order", bad is None, pattern=fn.pat, unit=tu.name,
                        inst=fn.q, detail="" if bad is None else "order() is the maximum cost over the named "
                        "sequences: " + bad)
@@ -162,46 +169,50 @@ def c05c(ctx, tu):
             ls = cfg.loops(fn)
             if len(ls) != 1:
                 raise Unknown("expected one loop")
-            l = ls[0]
-            body = fn.blocks[l["head"]]["succ"][0]
+            lm = LoopModel(fn, ls[0])
             bad = None
+
+            def oracle(at, front_is_m, sat, opt, eff):
+                def retire(t, it):
+                    eff.append(("retire", repr(it.ev(_recv(t)))))
+                    return None
+                return Oracle(calls=iter_calls(at, {
+                    "trompeloeil::sequence_matcher::retire": retire,
+                    "trompeloeil::list_elem::unlink": retire,
+                    # whether the front is satisfied / optional must not matter: everything in front of the
+                    # matched step is passed
+                    "trompeloeil::sequence_matcher::is_satisfied": sat,
+                    "trompeloeil::sequence_matcher::is_optional": opt}),
+                    params={0: ("ptr", ("elem", "cur")) if front_is_m else ("ptr", ("elem", "other"))},
+                    members={"trompeloeil::sequence_type::matchers": ("obj", "matchers")}).descend_into(tu)
+
             for front_is_m in (True, False):
               for sat in (True, False):
                 for opt in (True, False):
                     eff = []
-                    def retire(t, it, eff=eff):
-                        eff.append(("retire", repr(t[3])))
-                        return None
-                    o = Oracle(calls=dict(ITER, **{
-                        "trompeloeil::list::begin": ("iter", "begin"),
-                        "trompeloeil::sequence_matcher::retire": retire,
-                        "trompeloeil::list_elem::unlink": retire,
-                        # whether the front is satisfied / optional must not matter: everything in front of the
-                        # matched step is passed
-                        "trompeloeil::sequence_matcher::is_satisfied": sat,
-                        "trompeloeil::sequence_matcher::is_optional": opt}),
-                        params={0: ("ptr", ("elem", "cur")) if front_is_m else ("ptr", ("elem", "other"))},
-                        members={"trompeloeil::sequence_type::matchers": ("obj", "matchers")})
-                    it = Interp(fn, o)
-                    res = it.run(start=body, stop_blocks={l["head"]})
+                    res, it = lm.step(oracle("elem", front_is_m, sat, opt, eff), at="elem")
                     if front_is_m:
                         ok = res[0] in ("return", "exit") and not eff
                         want = "stop without retiring it"
                     else:
-                        ok = res[0] == "stop" and len(eff) == 1
+                        ok = res[0] == "stop" and len(eff) == 1 and "cur" in eff[0][1]
                         want = "retire the front element and look again"
                     if not ok and bad is None:
                         bad = "front %s the matched handle (front satisfied=%s, optional=%s): expected to %s; code does %s " \
                               "with effects %s" % ("is" if front_is_m else "is not", sat, opt, want, res[0], eff)
-            # loop guard: while the list is not empty
-            c = cfg.cond_of(fn, l["head"])
-            t, pol = cond_shape(c)
-            if lib.tree_name(t) != "trompeloeil::list::empty" or pol is not False:
-                bad = bad or "loop guard is not 'while the pending list is not empty'"
+            # an empty pending list ends the walk (nothing to retire, nothing to dereference)
+            eff = []
+            res, it = lm.step(oracle("end", False, True, False, eff), at="end")
+            if (res[0] not in ("return", "exit") or eff) and bad is None:
+                bad = "with an empty pending list the walk must end; code does %s with effects %s" % (res[0], eff)
             ctx.ob("C05.c", A["seq_retire_until"], bad is None, pattern=fn.pat, unit=tu.name,
                    detail="" if bad is None else "retire_until step table: " + bad)
         except Unknown as u:
             ctx.ob("C05.c", A["seq_retire_until"], None, pattern=fn.pat, unit=tu.name, detail="cannot interpret: %s" % u)
+
+
+def _recv(t):
+    return t[3] if t[0] == "mcall" else (t[4][0] if t[0] == "opcall" and t[4] else None)
 
 
 # ------------------------------------------------------------------------------- C05.e
